@@ -13,6 +13,7 @@ SHAPE = [
     ("ics_length", "implies(result[0] == 4, 2 <= result[1] and result[1] <= n - 1)"),
     ("enough_units_store_dependencies", "implies(n >= 2 and min(s, n - 1) >= n - 1, result[0] == 3)"),
     ("cost_is_mixed_optimum", "result[2] == MIXOPT(n, s)"),
+    ("cost_bounds", "result[2] >= 1 and 2 * result[2] <= n * (n + 1)"),
     ("cost_of_chosen_step", "implies(result[0] == 4, result[2] == result[1] + MIXOPT(result[1], s) + "
                             "MIXOPT(n - result[1], min(s, n - 1) - 1)) and "
                             "implies(result[0] == 3 and n >= 2, result[2] == 1 + MIXOPT(n - 1, min(s, n - 1) - 1))"),
@@ -26,6 +27,11 @@ PLANNER_RAISES = [("ValueError", "n <= 0 or s < min(1, n - 1)")]
 
 
 def register(reg):
+    register_mixed(reg)
+    register_tabulation(reg)
+
+
+def register_mixed(reg):
     # MIXOPT(n, s): the mixed optimum as the recurrence of Maddison (2024) (DESIGN.md 6.2), s clamped
     # to n-1; MIXC(n, s, i) is the cost of a first restart segment of length i.
     reg.spec_function("MIXOPT", ["int", "int"], "int")
@@ -103,14 +109,22 @@ def register(reg):
         "mixed.mixed_step_memoization", params=[("n", "int"), ("s", "int")],
         requires=[("clamped_by_wrapper", "s <= n - 1")],
         raises=[("ValueError", "n <= 0 or s < min(1, n - 1) or s > n - 1")],
-        returns=("tuple", ["steptype", "int", "int"]), ensures=SHAPE, frame=[],
+        returns=("tuple", ["steptype", "int", "int"]),
+        ensures=SHAPE + [("is_the_planner_step_of_the_specification",
+                          "implies(s >= 1, CELLOK(n, s, result[0], result[1], result[2]))", ("C16",))],
+        frame=[],
         locals={"m": ("opt", ("tuple", ["steptype", "int", "int"]))},
         recursion_measure="n",
+        hints={"m1[0]": [("use", "quadratic_cost_bound",
+                          ["mixed_step_memoization(i, s)[2]", "mixed_step_memoization(n - i, s - 1)[2]", "i", "n"]),
+                         ("candidate_bounds", "m1 >= 1 and 2 * m1 <= n * (n + 1)")],
+               "m1[1]": [("adj_deps_bounds", "m1 >= 1 and 2 * m1 <= n * (n + 1)")]},
         loops=[LoopSpec("for i in range(2, n)", [
             ("index", "2 <= it_i and it_i <= n"),
             ("domain", "n >= 4 and s >= 2 and s <= n - 2"),
             ("none_before_first", "(m is None) == (it_i == 2)"),
             ("best_so_far", "implies(m is not None, m[0] == 4 and 2 <= m[1] and m[1] <= it_i - 1)"),
+            ("bounds_of_best", "implies(m is not None, m[2] >= 1 and 2 * m[2] <= n * (n + 1))"),
             ("cost_of_best", "implies(m is not None, m[2] == m[1] + MIXOPT(m[1], s) + MIXOPT(n - m[1], s - 1))"),
             ("minimum_so_far", "implies(m is not None, forall(2, it_i, lambda j: "
                                "m[2] <= j + MIXOPT(j, s) + MIXOPT(n - j, s - 1)))"),
@@ -220,4 +234,184 @@ def register(reg):
                                                        % (E, E)),
                 ("work_empty_otherwise", "implies(step_type != 2 and g.fwd_def, g.wlo >= g.whi)")],
                 decreases="g.N - g.adj - self._n"),
+        ]))
+
+    # the same iterator on the tabulated (numba) path: C16 for the stream
+    reg.add(Contract(
+        "mixed.MixedCheckpointSchedule._iterator#tabulated", self_class="MixedCheckpointSchedule",
+        params=[("self", "obj")],
+        requires=[("int64_range", "self._max_n < 2 ** 31"), ("fresh_n", "self._n == 0"), ("fresh_r", "self._r == 0"),
+                  ("not_exhausted", "not self._exhausted")],
+        frame=["_n", "_r", "_exhausted"], props=STREAM, total=False,
+        exc_props={"*": ("C17", "C01", "C02")},
+        globals={"numba": "1"},   # the numba path: planner steps come from mixed_steps_tabulation
+        locals={"snapshots": ("list", ["steptype", "int", "int"], True), "snapshot_n": "set",
+                "step_type": "steptype"},
+        hooks={"module": "ghost", "init": "mx_init", "emit_Forward": "mx_forward",
+               "emit_EndForward": "mx_end_forward", "emit_Reverse": "mx_reverse", "emit_Copy": "mx_copy",
+               "emit_Move": "mx_move", "emit_EndReverse": "mx_end_reverse", "stop": "mx_stop",
+               "ghost_types": {"ck": ("list", ["int"]), "cs": ("list", ["int"]), "cov": ("list", ["int"])}},
+        loops=[
+            # outer loop: initial state, or the state right after a checkpoint has been loaded
+            LoopSpec("True", STACK + [
+                ("initial_or_loaded",
+                 "(g.phase == 0 and g.adj == 0 and %s == 0 and %s == 0 and g.fwd_def and not g.work_ics) or "
+                 "(g.phase == 1 and 1 <= g.adj and g.adj < g.N)" % (P, K)),
+                ("loaded_restart_data", "implies(g.phase == 1 and g.fwd_def, %s < %s)" % (P, E)),
+                ("work_empty_after_restart_load", "implies(g.fwd_def, g.wlo >= g.whi)"),
+                ("loaded_dependencies", "implies(not g.fwd_def, %s == 0 or g.cs[%s] <= %s - 2)" % (K, TOP, P))],
+                decreases="g.N - g.adj"),
+            # sweep
+            LoopSpec("self._n < self._max_n - self._r", STACK + [
+                ("phase", "(g.phase == 0 and g.adj == 0) or (g.phase == 1 and 1 <= g.adj and g.adj < g.N)"),
+                ("step_type", "step_type == 0 or step_type == 2 or step_type == 3 or step_type == 4"),
+                ("before_first_step", "implies(step_type == 0 and not g.fwd_def, %s == 0 or g.cs[%s] <= %s - 2)"
+                                      % (K, TOP, P)),
+                ("after_forward_reverse", "implies(step_type == 2, %s == %s and g.fwd_def and "
+                                          "(%s == 0 or g.cs[%s] <= %s - 2))" % (P, E, K, TOP, P)),
+                ("after_write", "implies(step_type == 3 or step_type == 4, g.fwd_def and %s >= 1 and "
+                                "g.cs[%s] < %s)" % (K, TOP, P)),
+                ("not_loaded_twice", "implies(step_type != 0, not g.work_ics)"),
+                ("steps_remain_before_first_step", "implies(step_type == 0 and g.fwd_def, %s < %s)" % (P, E)),
+                ("dependencies_after_forward_reverse", "implies(step_type == 2, g.wlo == %s - 1 and g.whi == %s)"
+                                                       % (E, E)),
+                ("work_empty_otherwise", "implies(step_type != 2 and g.fwd_def, g.wlo >= g.whi)")],
+                decreases="g.N - g.adj - self._n"),
+        ]))
+
+
+# F22 -------------------------------------------------------------------- mixed_steps_tabulation
+def cell(t, nn, ss):
+    """Specification of one table cell (t % k = its k-th component) for the sub-problem (nn, ss):
+    the same clauses as the memoised planner's contract, so that both planners prescribe the same
+    (kind, length, cost) - they are uniquely determined by these clauses."""
+    T0, T1, T2 = t % 0, t % 1, t % 2
+    cand = "(%%s + MIXOPT(%%s, %s) + MIXOPT(%s - %%s, %s - 1))" % (ss, nn, ss)
+
+    def c(j):
+        return cand % (j, j, j)
+    return (
+        "implies(%(n)s == 1, %(T0)s == 2 and %(T1)s == 1 and %(T2)s == 1) and "
+        "implies(%(n)s >= 2 and %(s)s >= %(n)s - 1, %(T0)s == 3 and %(T1)s == 1 and %(T2)s == %(n)s) and "
+        "implies(%(n)s >= 3 and %(s)s == 1, %(T0)s == 4 and %(T1)s == %(n)s - 1 and "
+        "2 * %(T2)s == %(n)s * (%(n)s + 1) - 2) and "
+        "%(T2)s == MIXOPT(%(n)s, %(s)s) and %(T2)s >= 1 and 2 * %(T2)s <= %(n)s * (%(n)s + 1) and "
+        "implies(2 <= %(s)s and %(s)s <= %(n)s - 2, (%(T0)s == 3 or %(T0)s == 4) and "
+        "implies(%(T0)s == 4, 2 <= %(T1)s and %(T1)s < %(n)s and %(T2)s == " + c("%(T1)s") + " and "
+        "forall(2, %(n)s, lambda jj: implies(jj > %(T1)s, %(T2)s < " + c("jj") + "))) and "
+        "implies(%(T0)s == 3, %(T1)s == 1 and %(T2)s == 1 + MIXOPT(%(n)s - 1, %(s)s - 1) and "
+        "forall(2, %(n)s, lambda jj: %(T2)s < " + c("jj") + ")))"
+    ) % {"n": nn, "s": ss, "T0": T0, "T1": T1, "T2": T2}
+
+
+def register_tabulation(reg):
+    from pyvc.contracts import Contract, LoopSpec
+    # C16 at the level of the specification: the planner-step clauses determine the triple, so two
+    # planners that both satisfy them (memoised body, tabulated cell) prescribe the same step
+    reg.arith_lemma("planner_step_is_unique", ["a", "b", "t0", "t1", "t2", "u0", "u1", "u2"],
+                    ["a >= 1", "b >= 1", "CELLOK(a, b, t0, t1, t2)", "CELLOK(a, b, u0, u1, u2)"],
+                    "t0 == u0 and t1 == u1 and t2 == u2", props=("C16",))
+    reg.arith_lemma("quadratic_cost_bound", ["a", "b", "i", "n"],
+                    ["2 <= i", "i <= n - 1", "2 * a <= i * (i + 1)", "2 * b <= (n - i) * (n - i + 1)"],
+                    "2 * (i + a + b) <= n * (n + 1)", props=("C16",))
+    # CELLOK(a, b, t0, t1, t2): the triple (t0, t1, t2) is the planner step for sub-problem (a, b).
+    # An opaque predicate with one definitional axiom: untouched cells keep it for free, only the
+    # cell being written has to be unfolded.
+    reg.spec_function("CELLOK", ["int", "int", "int", "int", "int"], "bool")
+    reg.spec_axioms("CELLOK", [
+        ("CELLOK.def", "forall_int(lambda a, b, t0, t1, t2: CELLOK(a, b, t0, t1, t2) == (" +
+         cell("t%d", "a", "b") + "))")])
+    OK = "CELLOK(%s, %s, schedule[%s, %s, 0], schedule[%s, %s, 1], schedule[%s, %s, 2])"
+
+    def ok(a, b):
+        return OK % (a, b, a, b, a, b, a, b)
+    UNTOUCHED = "schedule[%s, %s, 0] == 0 and schedule[%s, %s, 1] == 0 and schedule[%s, %s, 2] == -1"
+
+    def untouched(a, b):
+        return UNTOUCHED % (a, b, a, b, a, b)
+    SHAPE = "schedule.d0 == n + 1 and schedule.d1 == s + 1"
+    ROW1 = "forall(0, s + 1, lambda k: schedule[1, k, 0] == 2 and schedule[1, k, 1] == 1 and schedule[1, k, 2] == 1)"
+    COL0 = "forall(2, n + 1, lambda a: " + untouched("a", "0") + ")"
+    ROW0 = "forall(0, s + 1, lambda k: " + untouched("0", "k") + ")"
+    DONE_COLS = "forall(1, %s, lambda b: forall(1, n + 1, lambda a: " + ok("a", "b") + "))"
+    REST_COLS = "forall(%s, s + 1, lambda b: forall(2, n + 1, lambda a: " + untouched("a", "b") + "))"
+    CAND = "i + MIXOPT(i, s_i) + MIXOPT(n_i - i, s_i - 1)"
+    T1 = "schedule[n_i, s_i, 1]"
+    reg.add(Contract(
+        "mixed.mixed_steps_tabulation", params=[("n", "int"), ("s", "int")],
+        requires=[("domain", "n >= 1 and s >= 0 and n < 2 ** 31")],
+        returns="nd3",
+        ensures=[("shape", "result.d0 == n + 1 and result.d1 == s + 1"),
+                 ("every_cell_is_the_planner_step",
+                  "forall(1, s + 1, lambda b: forall(1, n + 1, lambda a: CELLOK(a, b, result[a, b, 0], "
+                  "result[a, b, 1], result[a, b, 2])))"),
+                 ("single_step_row", "forall(0, s + 1, lambda k: result[1, k, 0] == 2 and result[1, k, 1] == 1 "
+                                     "and result[1, k, 2] == 1)"),
+                 ("no_unit_column", "forall(2, n + 1, lambda a: result[a, 0, 0] == 0 and result[a, 0, 1] == 0 "
+                                    "and result[a, 0, 2] == -1)")],
+        frame=[], props=("C16", "C06"), exc_props={"*": ("C16", "C17")},
+        hints={
+            "store[4]": [("cell_is_planner_step", ok("n_i", "s_i"))],
+            "store[5]": [("cell_is_planner_step", ok("n_i", "s_i"))],
+            "store[7]": [("cell_is_planner_step", ok("n_i", "s_i"))],
+            "m1[0]": [
+                ("left_sub_problem_is_planner_step", ok("i", "s_i")),
+                ("right_sub_problem_is_planner_step", ok("n_i - i", "s_i - 1")),
+                ("use", "quadratic_cost_bound", ["schedule[i, s_i, 2]", "schedule[n_i - i, s_i - 1, 2]", "i", "n_i"]),
+                ("candidate_cost", "m1 == " + CAND),
+                ("candidate_bounds", "m1 >= 1 and 2 * m1 <= n_i * (n_i + 1)")],
+            "m1[1]": [
+                ("sub_problem_is_planner_step", ok("n_i - 1", "s_i - 1")),
+                ("adj_deps_cost", "m1 == 1 + MIXOPT(n_i - 1, s_i - 1)"),
+                ("adj_deps_bounds", "m1 >= 1 and 2 * m1 <= n_i * (n_i + 1)"),
+                ("restart_optimum_not_below", "schedule[n_i, s_i, 2] >= MIXOPT(n_i, s_i)"),
+                ("cost_of_better_option_is_the_optimum",
+                 "min(m1, schedule[n_i, s_i, 2]) == MIXOPT(n_i, s_i)"),
+                ("chosen_left_sub_problem_is_planner_step", ok("%s" % T1, "s_i")),
+                ("chosen_right_sub_problem_is_planner_step", ok("n_i - %s" % T1, "s_i - 1")),
+                ("use", "quadratic_cost_bound", ["schedule[%s, s_i, 2]" % T1,
+                                                 "schedule[n_i - %s, s_i - 1, 2]" % T1, T1, "n_i"]),
+                ("restart_cost_bounds", "schedule[n_i, s_i, 2] >= 1 and "
+                                        "2 * schedule[n_i, s_i, 2] <= n_i * (n_i + 1)"),
+                ("restart_checkpoint_kept_if_not_worse",
+                 "implies(not (m1 < schedule[n_i, s_i, 2]), " + ok("n_i", "s_i") + ")")]},
+        loops=[
+            LoopSpec("for s_i in range(s + 1)", [
+                ("index", "0 <= it_s_i and it_s_i <= s + 1"), ("shape", SHAPE),
+                ("filled", "forall(0, it_s_i, lambda k: schedule[1, k, 0] == 2 and schedule[1, k, 1] == 1 and "
+                           "schedule[1, k, 2] == 1)"),
+                ("rest", "forall(0, s + 1, lambda b: forall(0, n + 1, lambda a: implies(a != 1 or b >= it_s_i, "
+                         + untouched("a", "b") + ")))")],
+                decreases="s + 1 - it_s_i"),
+            LoopSpec("for s_i in range(1, s + 1)", [
+                ("index", "1 <= it_s_i and it_s_i <= max(s + 1, 1)"), ("shape", SHAPE),
+                ("row_1", ROW1), ("column_0", COL0), ("row_0", ROW0),
+                ("single_step_cells", "forall(1, s + 1, lambda b: CELLOK(1, b, 2, 1, 1))"),
+                ("done", DONE_COLS % "it_s_i"), ("rest", REST_COLS % "it_s_i")],
+                decreases="max(s + 1, 1) - it_s_i"),
+            LoopSpec("for n_i in range(2, n + 1)", [
+                ("index", "2 <= it_n_i and it_n_i <= max(n + 1, 2)"), ("shape", SHAPE),
+                ("outer", "1 <= s_i and s_i <= s"),
+                ("row_1", ROW1), ("column_0", COL0), ("row_0", ROW0),
+                ("done", DONE_COLS % "s_i"), ("rest", REST_COLS % "s_i + 1"),
+                ("this_column_done", "forall(1, it_n_i, lambda a: " + ok("a", "s_i") + ")"),
+                ("this_column_rest", "forall(it_n_i, n + 1, lambda a: " + untouched("a", "s_i") + ")")],
+                decreases="max(n + 1, 2) - it_n_i"),
+            LoopSpec("for i in range(2, n_i)", [
+                ("index", "2 <= it_i and it_i <= n_i"), ("shape", SHAPE),
+                ("outer", "2 <= s_i and s_i <= s and s_i <= n_i - 2 and n_i <= n"),
+                ("row_1", ROW1), ("column_0", COL0), ("row_0", ROW0),
+                ("done", DONE_COLS % "s_i"), ("rest", REST_COLS % "s_i + 1"),
+                ("this_column_done", "forall(1, n_i, lambda a: " + ok("a", "s_i") + ")"),
+                ("this_column_rest", "forall(n_i + 1, n + 1, lambda a: " + untouched("a", "s_i") + ")"),
+                ("none_before_first", "(schedule[n_i, s_i, 2] < 0) == (it_i == 2)"),
+                ("untouched_before_first", "implies(it_i == 2, " + untouched("n_i", "s_i") + ")"),
+                ("best_so_far",
+                 "implies(it_i > 2, schedule[n_i, s_i, 0] == 4 and 2 <= schedule[n_i, s_i, 1] and "
+                 "schedule[n_i, s_i, 1] < it_i and schedule[n_i, s_i, 2] == schedule[n_i, s_i, 1] + "
+                 "MIXOPT(schedule[n_i, s_i, 1], s_i) + MIXOPT(n_i - schedule[n_i, s_i, 1], s_i - 1) and "
+                 "forall(2, it_i, lambda jj: schedule[n_i, s_i, 2] <= jj + MIXOPT(jj, s_i) + MIXOPT(n_i - jj, s_i - 1)) and "
+                 "forall(2, it_i, lambda jj: implies(jj > schedule[n_i, s_i, 1], "
+                 "schedule[n_i, s_i, 2] < jj + MIXOPT(jj, s_i) + MIXOPT(n_i - jj, s_i - 1))))")],
+                decreases="n_i - it_i"),
         ]))
